@@ -40,6 +40,12 @@ def run_compiler(lines, work, scope, start=2000, until=2050, flags=('arduino', '
 
 def build_scanner_for(gen_basic, gen_ext, name):
     """tzscan linked against generated tables instead of the shipped ones"""
+    exes, err = build_tools_for(gen_basic, gen_ext, name, ('tzscan.cpp',))
+    return (exes['tzscan'] if exes else None), err
+
+
+def build_tools_for(gen_basic, gen_ext, name, mains=('tzscan.cpp', 'dbdump.cpp', 'pairdrv.cpp')):
+    """harness programs linked against generated tables instead of the shipped ones: {program name: path}"""
     inc = os.path.join(os.path.dirname(gen_basic), 'inc')
     shutil.rmtree(inc, ignore_errors=True)
     for sub, src in (('zonedb', gen_basic), ('zonedbx', gen_ext)):
@@ -48,32 +54,39 @@ def build_scanner_for(gen_basic, gen_ext, name):
         for f in glob.glob(os.path.join(src, '*')):
             shutil.copy(f, d)
     extra = sorted(glob.glob(os.path.join(inc, 'ace_time', '*', '*.cpp')))
-    return build_generated(name, ['tzscan.cpp'], inc, extra)
+    return build_generated(name, list(mains), inc, extra)
 
 
-def build_generated(name, sources, inc, extra_cpp):
-    """like common.build_binary but the two zone databases come from `inc`"""
+def build_generated(name, mains, inc, extra_cpp):
+    """like common.build_binary but the two zone databases come from `inc`; one executable per main source"""
     flags = list(common.FLAVORS['opt']) + ['-DUNIX_HOST_DUINO', '-D%s=1' % common.HOOK_MACRO, '-I' + inc, '-I' + common.SHIM,
                                           '-I' + os.path.join(common.REPO, 'src'), '-I' + common.HARNESS]
-    srcs = [os.path.join(common.HARNESS, s) for s in sources]
     lib = [f for f in common.lib_cpp_files() if '/zonedb/' not in f and '/zonedbx/' not in f]
     outdir = os.path.join(os.path.dirname(inc), 'bin-' + name)
     shutil.rmtree(outdir, ignore_errors=True)
     os.makedirs(outdir)
     jobs = []
     objs = []
-    for i, s in enumerate(lib + srcs + list(extra_cpp)):
+    mainobjs = {}
+    for i, s in enumerate(lib + list(extra_cpp)):
         o = os.path.join(outdir, '%d.o' % i)
         objs.append(o)
         jobs.append((s, o, flags))
+    for m in mains:
+        o = os.path.join(outdir, 'main-%s.o' % m.replace('.cpp', ''))
+        mainobjs[m.replace('.cpp', '')] = o
+        jobs.append((os.path.join(common.HARNESS, m), o, flags))
     for src, rc, out in common.tmap(common._compile_one, jobs):
         if rc != 0:
             return None, 'compile failed: %s\n%s' % (src, out[-3000:])
-    exe = os.path.join(outdir, name)
-    rc, out = common._run(flags + objs + ['-o', exe])
-    if rc != 0:
-        return None, 'link failed: %s' % out[-3000:]
-    return exe, None
+    exes = {}
+    for prog, mo in mainobjs.items():
+        exe = os.path.join(outdir, prog)
+        rc, out = common._run(flags + objs + [mo, '-o', exe])
+        if rc != 0:
+            return None, 'link failed: %s' % out[-3000:]
+        exes[prog] = exe
+    return exes, None
 
 
 def year_day(y):
@@ -202,7 +215,8 @@ def _gen_zone(rnd, k):
         pol = 'P%03d' % k
         used_pol = False
         y = rnd.choice([1999, 2003, 2007, 2011])
-        off = rnd.choice(STDOFFS)
+        rnd.choice(STDOFFS)                          # (keeps the random stream of earlier versions)
+        off = STDOFFS[k % len(STDOFFS)]              # every offset class occurs in every generated source
         eras = []
         for e in range(neras):
             # (a first era in permanent DST has no agreed meaning before its first transition: TZif readers differ)
